@@ -744,7 +744,7 @@ func ruleHashDefs(c *Check, p *Prog) {
 	// leafHashOpt: Reset; Write(leafPrefix); Write(leaf); Sum(nil) in that order, leafPrefix = {0}
 	var lh *ssa.Function
 	for _, cal := range staticCalleesOf(p, p.MustFunc(typesM("Data", "Hash"))) {
-		if len(cal.Params) == 2 && strings.HasSuffix(cal.Params[0].Type().String(), "hash.Hash") {
+		if len(cal.Params) == 2 && (strings.HasSuffix(cal.Params[0].Type().String(), "hash.Hash") || strings.HasSuffix(cal.Params[1].Type().String(), "hash.Hash")) {
 			lh = cal
 		}
 	}
@@ -762,8 +762,12 @@ func ruleHashDefs(c *Check, p *Prog) {
 				seq = append(seq, s)
 			}
 		}
-		want := "Reset,Write(types.leafPrefix),Write(" + lh.Params[1].Name() + "),Sum"
-		if strings.Join(seq, ",") == want || (len(seq) == 4 && seq[0] == "Reset" && strings.HasPrefix(seq[1], "Write(types.") && seq[2] == "Write("+lh.Params[1].Name()+")" && seq[3] == "Sum") {
+		leafParam := lh.Params[1].Name()
+		if strings.HasSuffix(lh.Params[1].Type().String(), "hash.Hash") {
+			leafParam = lh.Params[0].Name()
+		}
+		want := "Reset,Write(types.leafPrefix),Write(" + leafParam + "),Sum"
+		if strings.Join(seq, ",") == want || (len(seq) == 4 && seq[0] == "Reset" && strings.HasPrefix(seq[1], "Write(types.") && seq[2] == "Write("+leafParam+")" && seq[3] == "Sum") {
 			c.OK(rule, "leafHashOpt = H(prefix ‖ leaf)", fnName(lh), p.Pos(lh.Pos()), strings.Join(seq, " → "), true)
 		} else {
 			c.Bad(rule, "leafHashOpt = H(prefix ‖ leaf)", fnName(lh), p.Pos(lh.Pos()), "unexpected hashing sequence "+strings.Join(seq, ","), nil)
